@@ -254,7 +254,7 @@ func c08Reuse(prog *ast.Program, cfg Cfg, first CompOut) (kind, detail string) {
 }
 
 func c08Run(c *core.Ctx) {
-	processWarmup()
+	processWarmup(c)
 	cfgIdx := c08Quick
 	if c.Thorough() {
 		cfgIdx = nil
